@@ -25,6 +25,7 @@ type c11Case struct {
 	Only    []int    `json:"only,omitempty"`
 	OnlyF   []c11Flt `json:"only_faults,omitempty"`
 	OnlyO   string   `json:"only_op,omitempty"`
+	Sys     *c11Sys  `json:"sys,omitempty"`
 	NoPairs bool     `json:"no_pairs,omitempty"`
 }
 
@@ -111,12 +112,15 @@ func (c c11) Run(ctx *core.Ctx) error {
 			ctx.Report(core.Violation{Desc: "worker died: " + r.DiedMsg, Case: cases[i]})
 		}
 	}
-	return nil
+	return c11SystemHalf(ctx)
 }
 
 func (c c11) Case(w *core.WCtx, payload json.RawMessage) core.Result {
 	var cs c11Case
 	json.Unmarshal(payload, &cs)
+	if cs.Sys != nil {
+		return c.sysCase(w, cs.Sys)
+	}
 	var r core.Result
 	var lists [][]int
 	if cs.Only != nil {
